@@ -54,6 +54,7 @@ package armor
 //@   ensures#progress err == nil ==> len(r.r.$rem) < len(old(r.r.$rem))                                                             [C08 C14]
 //@   ensures#suffix issuffix(r.r.$rem, old(r.r.$rem)) && len(r.r.$rem) <= len(old(r.r.$rem))
 //@   ensures#len err == nil ==> len(line) <= len(old(r.r.$rem)) - len(r.r.$rem)
+//@   ensures#consumed err == nil ==> len(old(r.r.$rem)) - len(r.r.$rem) <= len(line) + 2                                             [C08 C14]
 //@   modifies r.r.$rem, r.r.$bufd, r.r.$under.$rem
 
 //@ func (*armoredReader).Read$2() (err)
@@ -67,6 +68,7 @@ package armor
 //@ func (*armoredReader).Read(r, p) (n, err)
 //@   requires arinv(r) && disjoint(p, r.buf)
 //@   loop 1 invariant arinv(r) && r.err == nil && len(r.unread) == 0 && 0 <= removedWhitespace && removedWhitespace <= 1024 && issuffix(r.r.$rem, old(r.r.$rem)) && old(r.err) == nil && len(old(r.unread)) == 0
+//@   loop 1 invariant#wsbound r.started || len(old(r.r.$rem)) - len(r.r.$rem) <= 2 * removedWhitespace                              [C08 C14]
 //@   loop 1 decreases len(r.r.$rem) + (r.started ? 0 : 1)
 //@   ensures#inv arinv(r)
 //@   ensures#n 0 <= n && n <= len(p)                                                                                               [C12 C14]
